@@ -184,7 +184,11 @@ func enumPaths(fn *ssa.Function, limit, maxVisits int) (paths []Path, complete b
 				return
 			case *ssa.If:
 				c := s.term(x.Cond)
+				cv, cok := constCond(c)
 				for i, succ := range b.Succs {
+					if cok && cv != (i == 0) {
+						continue // branch decided by two literals: the other edge is infeasible
+					}
 					ns := s
 					if i == 0 {
 						ns = s.clone()
@@ -459,3 +463,58 @@ func (p *Path) eventIndex(from int, kind string, pred func(string) bool) int {
 func eq(s string) func(string) bool      { return func(x string) bool { return x == s } }
 func prefix(s string) func(string) bool  { return func(x string) bool { return strings.HasPrefix(x, s) } }
 func contains(s string) func(string) bool { return func(x string) bool { return strings.Contains(x, s) } }
+
+// constCond evaluates a comparison of two integer literals ("(32 == 0)").
+func constCond(c string) (bool, bool) {
+	switch {
+	case c == "(nil == nil)":
+		return true, true
+	case c == "(nil != nil)":
+		return false, true
+	case strings.HasPrefix(c, "(make(") && strings.HasSuffix(c, ") == nil)") && balanced(c[1:len(c)-len(" == nil)")]):
+		return false, true
+	case strings.HasPrefix(c, "(make(") && strings.HasSuffix(c, ") != nil)") && balanced(c[1:len(c)-len(" != nil)")]):
+		return true, true
+	}
+	var a, b int64
+	var op string
+	if n, _ := fmt.Sscanf(c, "(%d %s %d)", &a, &op, &b); n != 3 {
+		return false, false
+	}
+	op = strings.TrimSuffix(op, ")")
+	if !strings.HasSuffix(c, fmt.Sprintf(" %d)", b)) || !strings.HasPrefix(c, fmt.Sprintf("(%d ", a)) {
+		return false, false
+	}
+	switch op {
+	case "==":
+		return a == b, true
+	case "!=":
+		return a != b, true
+	case "<":
+		return a < b, true
+	case "<=":
+		return a <= b, true
+	case ">":
+		return a > b, true
+	case ">=":
+		return a >= b, true
+	}
+	return false, false
+}
+
+// balanced reports whether s is one parenthesised call expression.
+func balanced(s string) bool {
+	depth := 0
+	for i, ch := range s {
+		switch ch {
+		case '(':
+			depth++
+		case ')':
+			depth--
+			if depth == 0 && i != len(s)-1 {
+				return false
+			}
+		}
+	}
+	return depth == 0
+}
